@@ -27,10 +27,17 @@ func init() {
 	}
 }
 
+type (
+	uuNamedS string
+	uuNamedB []byte
+)
+
 func uuTyped(err error) bool {
 	var ps *uu.ParseError[string]
 	var pb *uu.ParseError[[]byte]
-	return errors.As(err, &ps) || errors.As(err, &pb)
+	var ns *uu.ParseError[uuNamedS]
+	var nb *uu.ParseError[uuNamedB]
+	return errors.As(err, &ps) || errors.As(err, &pb) || errors.As(err, &ns) || errors.As(err, &nb)
 }
 
 // c05Format checks every output path of one ID and parses each produced text back.
@@ -167,6 +174,12 @@ func c05Parse(w *rt.W, text string, r uu.Rule, both bool) (accepted bool) {
 	if both {
 		g, err = uu.DefaultParser([]byte(text), r)
 		judge("DefaultParser[[]byte]", g, err)
+		if len(text)%4 == 0 {
+			g, err = uu.DefaultParser(uuNamedS(text), r)
+			judge("DefaultParser[named string]", g, err)
+			g, err = uu.DefaultParser(uuNamedB(text), r)
+			judge("DefaultParser[named []byte]", g, err)
+		}
 	}
 	return ok
 }
@@ -301,6 +314,74 @@ func runC05(c *rt.Ctx) {
 			}
 		}
 	})
+	// two and four simultaneous substitutions: wrong separators that "cancel out", paired digit defects
+	c.Parallel("multi-substitution", 0, func(w *rt.W) {
+		seps := []int{8, 13, 18, 23}
+		base := []byte("ed7059f3-8044-4f2a-81aa-b959b33c7777")
+		n := 0
+		for i := 0; i < 4; i++ {
+			for j := i + 1; j < 4; j++ {
+				for a := 0; a < 256; a++ {
+					n++
+					if n%w.NShards != w.Shard {
+						continue
+					}
+					for b := 0; b < 256; b++ {
+						t := append([]byte(nil), base...)
+						t[seps[i]], t[seps[j]] = byte(a), byte(b)
+						c05Parse(w, string(t), 0, false)
+						if (a+b)%64 == 0 {
+							c05Parse(w, "urn:uuid:"+string(t), uu.Rule(b&3), true)
+						}
+					}
+					w.ClassN("separator-pair-substitution", 256)
+				}
+			}
+		}
+		for k := 0; k < 200000/w.NShards; k++ {
+			t := []byte(ref.UUIDText(w.Rng.U64(), w.Rng.U64()))
+			switch k % 3 {
+			case 0: // all four separators replaced, sum of the four preserved
+				d := w.Rng.Intn(40) - 20
+				e := w.Rng.Intn(40) - 20
+				t[8], t[13], t[18], t[23] = byte('-'+d), byte('-'-d), byte('-'+e), byte('-'-e)
+			case 1: // two random positions, random bytes
+				t[w.Rng.Intn(36)] = byte(w.Rng.Intn(256))
+				t[w.Rng.Intn(36)] = byte(w.Rng.Intn(256))
+			default: // xor-balanced pair
+				x := byte(1 + w.Rng.Intn(255))
+				i, j := seps[w.Rng.Intn(4)], seps[w.Rng.Intn(4)]
+				t[i] ^= x
+				t[j] ^= x
+			}
+			c05Parse(w, string(t), uu.Rule(k&3), true)
+			w.ClassN("multi-substitution", 1)
+		}
+	})
+	{
+		oldF := uu.Formatter
+		uu.Formatter = func(buf []byte, id uu.ID, f uu.Format) ([]byte, error) { return nil, errors.New("formatter refuses") }
+		c.Serial("failing-formatter", func(w *rt.W) {
+			for _, id := range bgs {
+				want := ref.UUIDText(id.Higher, id.Lower)
+				for _, vb := range []struct{ verb, want string }{{"%s", want}, {"%v", want}, {"%u", "urn:uuid:" + want}} {
+					if g := fmt.Sprintf(vb.verb, id); g != vb.want {
+						w.Fail("failing-formatter-fallback", "format", rt.Args("hi", fmt.Sprint(id.Higher), "lo", fmt.Sprint(id.Lower), "path", "Sprintf "+vb.verb+" with a failing Formatter"), g, vb.want, "String and the verbs fall back to DefaultFormatter when the configured Formatter fails")
+					}
+				}
+				if g := id.String(); g != want {
+					w.Fail("failing-formatter-fallback", "format", rt.Args("hi", fmt.Sprint(id.Higher), "lo", fmt.Sprint(id.Lower), "path", "String with a failing Formatter"), g, want, "fallback")
+				}
+				if g := id.URN(); g != "urn:uuid:"+want {
+					w.Fail("failing-formatter-fallback", "format", rt.Args("hi", fmt.Sprint(id.Higher), "lo", fmt.Sprint(id.Lower), "path", "URN with a failing Formatter"), g, "urn:uuid:"+want, "fallback")
+				}
+				w.Eval(5)
+			}
+		})
+		uu.Formatter = oldF
+	}
+	c.Exhaustive("all 6 pairs of separator positions x all 65,536 byte pairs on one valid text")
+	c.Require("separator-pair-substitution", 390000)
 	c.Require("single-byte-substitution", 100000)
 	c.Require("prefix-case-variant", 512)
 	c.Require("bit-position-sweep", 1536)
